@@ -45,7 +45,9 @@ type importer struct {
 	cells   map[int]*value
 }
 
-func infra(msg string) pathEnd { return pathEnd{kind: endUnsupported, msg: "INFRA: heap import: " + msg} }
+func infra(msg string) pathEnd {
+	return pathEnd{kind: endUnsupported, msg: "INFRA: heap import: " + msg}
+}
 
 func (im *importer) namedType(s string) types.Type {
 	i := strings.LastIndex(s, ".")
